@@ -316,16 +316,11 @@ func r062(c *Ctx) {
 	}
 	// (f) DeployService: service-construction errors return before the deploy routine runs
 	ds := c.method("Router", "DeployService")
-	foc := c.method("Router", "findOrCreateService")
+	// (findOrCreateService is de-anchored: always expanded into DeployService)
 	dep := c.method("Router", "deployTargetsIntoService")
 	okDS := false
-	for _, cs := range callsTo(ds, foc) {
-		e := errResultOf(cs.instr.(*ssa.Call))
-		for _, dc := range callsTo(ds, dep) {
-			if isNil, _ := nilKnowledge(dc.instr, sameAs(e)); isNil && dc.common().Args[1] == resultOf(cs.instr.(*ssa.Call), 0) {
-				okDS = true
-			}
-		}
+	for _, dc := range callsTo(ds, dep) {
+		okDS = freshServiceWithNilError(c, dc.instr, dc.common().Args[1])
 	}
 	c.ob(rule, "DeployService/option-errors-precede-deploy", ds.Pos(), okDS, true, "certificate/error-page/wildcard errors (from NewService/CopyWithOptions) must return before targets are created, and the deploy must act on that fresh service")
 	freshServiceObject(c, rule)
@@ -541,28 +536,85 @@ func derivedFromLoopCtx(v ssa.Value, ctxF *types.Var) bool {
 	return false
 }
 
-// freshServiceObject: findOrCreateService returns a fresh object on both branches (NewService / CopyWithOptions).
+// freshServiceObject: the service an active-slot deploy works on is a fresh object on every way (NewService /
+// CopyWithOptions), never the installed *Service itself.
 func freshServiceObject(c *Ctx, rule string) {
-	foc := c.method("Router", "findOrCreateService")
+	ds := c.method("Router", "DeployService")
+	dep := c.method("Router", "deployTargetsIntoService")
+	okF, n := true, 0
+	for _, dc := range callsTo(ds, dep) {
+		n++
+		if !freshServiceWithNilError(c, nil, dc.common().Args[1]) {
+			okF = false
+		}
+	}
+	c.ob(rule, "findOrCreateService/always-fresh-object", ds.Pos(), okF && n >= 1, true, "a deploy must never be handed the installed *Service itself")
+}
+
+// freshServiceWithNilError: every value svc can be is the first result of a NewService / CopyWithOptions call (or nil);
+// when `at` is given, the error result of that same call is known nil there (directly, or because the error merged in
+// step with the service - same block, same incoming edges - is known nil).
+func freshServiceWithNilError(c *Ctx, at ssa.Instruction, svc ssa.Value) bool {
 	ns := c.fn("NewService")
 	cwo := c.method("Service", "CopyWithOptions")
-	okF := true
-	for _, ret := range normalReturns(foc) {
-		// every value that can be returned is nil or the object just made by NewService / CopyWithOptions
-		for _, src := range phiSources(retVal(ret, 0)) {
-			if isNilConst(src) {
+	isMaker := func(v ssa.Value) (*ssa.Call, bool) {
+		e, isE := v.(*ssa.Extract)
+		if !isE || e.Index != 0 {
+			return nil, false
+		}
+		call, isCall := e.Tuple.(*ssa.Call)
+		if !isCall || !(isCallTo(call.Common(), ns) || isCallTo(call.Common(), cwo)) {
+			return nil, false
+		}
+		return call, true
+	}
+	svc = resolve(svc)
+	if call, ok := isMaker(svc); ok {
+		if at == nil {
+			return true
+		}
+		isNil, _ := nilKnowledge(at, sameAs(errResultOf(call)))
+		return isNil
+	}
+	phi, ok := svc.(*ssa.Phi)
+	if !ok {
+		return false
+	}
+	var makers []*ssa.Call
+	for _, e := range phi.Edges {
+		if isNilConst(e) {
+			makers = append(makers, nil)
+			continue
+		}
+		call, ok := isMaker(e)
+		if !ok {
+			return false
+		}
+		makers = append(makers, call)
+	}
+	if at == nil {
+		return true
+	}
+	// the error phi that travels with it
+	for _, in := range phi.Block().Instrs {
+		ep, ok := in.(*ssa.Phi)
+		if !ok || ep == phi || !isErrorType(ep.Type()) {
+			continue
+		}
+		match := true
+		for i, e := range ep.Edges {
+			if makers[i] == nil {
 				continue
 			}
-			e, isE := src.(*ssa.Extract)
-			if !isE || e.Index != 0 {
-				okF = false
-				continue
+			if x, isE := e.(*ssa.Extract); !isE || x.Index != 1 || x.Tuple != ssa.Value(makers[i]) {
+				match = false
 			}
-			call, isCall := e.Tuple.(*ssa.Call)
-			if !isCall || !(isCallTo(call.Common(), ns) || isCallTo(call.Common(), cwo)) {
-				okF = false
+		}
+		if match {
+			if isNil, _ := nilKnowledge(at, sameAs(ep)); isNil {
+				return true
 			}
 		}
 	}
-	c.ob(rule, "findOrCreateService/always-fresh-object", foc.Pos(), okF, true, "a deploy must never be handed the installed *Service itself")
+	return false
 }
